@@ -15,14 +15,16 @@ OnlyArc(L) == CHOOSE x \in L : TRUE
 
 \* ------------------------------------------------------------------ encoder
 \* st = [v, q (limbs), loc, strand, ticks, out]   out \in {"run", "ok", "noarc", "deg3"}
-EncInit(start, msg) == [v |-> start, q |-> FromBits(msg), loc |-> 0, strand |-> <<>>, ticks |-> 0, out |-> "run"]
+\* path: the need_path record (normal mode: the vertex the step leaves; fast mode: the vertex the step enters; 1 = the step carried information)
+EncInit(start, msg) == [v |-> start, q |-> FromBits(msg), loc |-> 0, strand |-> <<>>, ticks |-> 0, out |-> "run", path |-> <<>>]
 EncDoneNormal(st) == IsZero(st.q)
 EncStepNormal(live, N, tbl, st) ==
   LET L == live[st.v]  d == Cardinality(L) IN
   IF d = 0 THEN [st EXCEPT !.out = "noarc", !.ticks = @ + 1]
   ELSE LET qr == IF d > 1 THEN DivMod(st.q, d) ELSE <<st.q, 0>>
            a == IF d > 1 THEN DigitToArc(tbl[st.v], L, qr[2]) ELSE OnlyArc(L)
-       IN [st EXCEPT !.strand = Append(@, a), !.v = Succ(N, st.v, a), !.q = qr[1], !.ticks = @ + 1]
+       IN [st EXCEPT !.strand = Append(@, a), !.v = Succ(N, st.v, a), !.q = qr[1], !.ticks = @ + 1,
+                     !.path = Append(@, <<st.v, IF d > 1 THEN 1 ELSE 0>>)]
 BitAt(msg, i) == IF i <= Len(msg) THEN msg[i] ELSE 0          \* a missing last bit reads as 0
 EncDoneFast(msg, st) == st.loc >= Len(msg)
 EncStepFast(live, N, tbl, msg, st) ==
@@ -32,7 +34,8 @@ EncStepFast(live, N, tbl, msg, st) ==
   ELSE LET r == IF d = 4 THEN 2 * BitAt(msg, st.loc + 1) + BitAt(msg, st.loc + 2) ELSE IF d = 2 THEN BitAt(msg, st.loc + 1) ELSE 0
            a == IF d > 1 THEN DigitToArc(tbl[st.v], L, r) ELSE OnlyArc(L)
        IN [st EXCEPT !.strand = Append(@, a), !.v = Succ(N, st.v, a), !.ticks = @ + 1,
-                     !.loc = @ + (IF d = 4 THEN 2 ELSE IF d = 2 THEN 1 ELSE 0)]
+                     !.loc = @ + (IF d = 4 THEN 2 ELSE IF d = 2 THEN 1 ELSE 0),
+                     !.path = Append(@, <<Succ(N, st.v, a), IF d > 1 THEN 1 ELSE 0>>)]
 EncStep(live, N, tbl, msg, mode, st) ==
   IF mode = "normal" THEN (IF EncDoneNormal(st) THEN [st EXCEPT !.out = "ok"] ELSE EncStepNormal(live, N, tbl, st))
   ELSE (IF EncDoneFast(msg, st) THEN [st EXCEPT !.out = "ok"] ELSE EncStepFast(live, N, tbl, msg, st))
